@@ -38,3 +38,57 @@ package escape
 //@   loop state invariant istype(instr, *ssa.Select) && 0 <= i && i < iter(state) ==> called(derefsAreLocal, g, vnode(g.nodes, instr.(*ssa.Select).States[i].Chan))
 //@   kinds instr world ssa.Instruction only MultiConvert, DebugRef
 //@     ensures unknown_kind_not_local: result != nil
+
+// ---------------------------------------------------------------------------
+// C15: the graph operations are EXTENSIVE: they never lower a status and never
+// remove a node or an edge (g <= op(g) in the analysis' ordering). A node that is
+// absent has status Local (0), which is what a map lookup yields.
+
+//@ spec wfGraph(g *EscapeGraph) bool = g != nil && g.status != nil && g.edges != nil && g.rationales != nil && (forall m *Node :: has(g.status, m) <==> has(g.edges, m)) && (forall m *Node :: has(g.edges, m) ==> g.edges[m] != nil && allocated(g.edges[m]))
+//@ spec statusGrew(g *EscapeGraph) bool = forall m *Node :: g.status[m] >= old(g.status[m]) && (old(has(g.status, m)) ==> has(g.status, m))
+//@ spec edgesKept(g *EscapeGraph) bool = forall a *Node, b *Node :: old(has(g.edges, a) && has(g.edges[a], b)) ==> has(g.edges, a) && has(g.edges[a], b)
+
+//@ func Node.IntrinsicEscape
+//@   property C15
+//@   pure
+//@   reads Node.kind
+//@   requires n != nil
+//@   ensures range: result == Local || result == Escaped || result == Leaked
+
+// AddNode adds n with its intrinsic status if it is absent and changes nothing else.
+//@ func EscapeGraph.AddNode
+//@   property C15
+//@   requires wfGraph(g) && n != nil
+//@   ensures present: has(g.status, n)
+//@   ensures status_grew: statusGrew(g)
+//@   ensures edges_kept: edgesKept(g)
+//@   ensures others_unchanged: forall m *Node :: old(has(g.status, m)) ==> g.status[m] == old(g.status[m])
+//@   ensures wf: wfGraph(g)
+//@   modifies map(*Node;EscapeStatus), map(*Node;map[*Node]edgeFlags), map(*Node;*dataflow.EscapeRationale)
+
+// computeEdgeClosure propagates the status of a to b (and onwards): afterwards b is
+// at least as escaped as a was; no status is lowered; edges are untouched (frame).
+//@ func EscapeGraph.computeEdgeClosure
+//@   property C15
+//@   requires g != nil && g.status != nil && g.edges != nil && g.rationales != nil
+//@   ensures extensive: statusGrew(g)
+//@   ensures propagated: g.status[b] >= old(g.status[a])
+//@   modifies map(*Node;EscapeStatus), map(*Node;*dataflow.EscapeRationale)
+//@   loop node invariant fresh: isfresh(worklist)
+//@   loop succ invariant fresh2: isfresh(worklist)
+//@   loop node invariant frame: preserved(elems(*Node))
+//@   loop succ invariant frame2: preserved(elems(*Node))
+//@   loop node invariant grew: statusGrew(g)
+//@   loop node invariant prop: g.status[b] >= old(g.status[a])
+//@   loop succ invariant grew2: statusGrew(g)
+//@   loop succ invariant prop2: g.status[b] >= old(g.status[a])
+
+// MergeNodeStatus raises the status of n to at least s and never lowers any status.
+//@ func EscapeGraph.MergeNodeStatus
+//@   property C15
+//@   requires g != nil && g.status != nil && g.edges != nil && g.rationales != nil
+//@   ensures status_grew: statusGrew(g)
+//@   ensures at_least: g.status[n] >= s
+//@   modifies map(*Node;EscapeStatus), map(*Node;*dataflow.EscapeRationale)
+//@   loop pointee invariant grew: statusGrew(g)
+//@   loop pointee invariant atl: g.status[n] >= s
